@@ -28,6 +28,15 @@ func symxC05() {
 	for k := 0; k < nclients; k++ {
 		pubSs[k], pubCs[k] = b1.session([]string{"pub", "pub2"}[k], []string{"cp", "cp2"}[k], "m", 30)
 	}
+	// optionally every publish worker has already handled a successful publish (state carried
+	// from one publish to the next inside a worker must not leak into later decisions)
+	if rt.Param("warmup", 0) > 0 && rt.Bool("workers_warmed_up") {
+		for k := 0; k < rt.Param("warmup", 0); k++ {
+			symxTick()
+			p1.proc.Process(b1.ctx, pubSs[0], pubCs[0], &packet.Publish{Header: &packet.Header{}, Topic: []byte("t"), Payload: []byte("w")})
+			rt.Quiesce()
+		}
+	}
 	var opens [2][2]bool // per client: handshake open for id 5 / 6 (identifiers are per session)
 	ids := []int32{5, 6}
 	for step := 0; step < steps; step++ {
